@@ -24,12 +24,12 @@ Proof. intros. rewrite gen_wrappers_agree. apply wrappers_meet_protocol. Qed.
 
 (* the critical section of the transition system is the script of the source's trace *)
 Theorem gen_do_cs_is_source_script :
-  forall (S X : Type) gen hfun lout mrg f x0 w h (c : config S X) i n, h <> HPanic ->
+  forall (S X : Type) gen hfun lout mrg f x0 w h (c : config S X) i n,
     do_cs S X gen hfun lout mrg f x0 c i n =
     run_steps S X (pstep S X gen hfun lout mrg f x0) c
               (script (o_trace (run_prog true h (Gen.StateLockCode.cs_prog w))) i n).
 Proof.
-  intros. rewrite gen_wrappers_agree. now apply do_cs_is_wrapper_script.
+  intros. rewrite gen_wrappers_agree. apply do_cs_is_wrapper_script.
 Qed.
 
 Theorem gen_get_state_agrees : forall (H V M : Type) ctx_value state_as mu_of,
